@@ -9,6 +9,12 @@ def judge_pesf(case, impl, model, spec):
         return ("violation", r)
     return ("correspondence", "implementation differs from the model although the protocol / continuity predicates hold on its trace")
 
+def judge_sec(case, impl, model, spec):
+    r = _trace.sec_judge(case, impl)
+    if r:
+        return ("violation", r)
+    return ("correspondence", "implementation differs from the model although the target section is delivered exactly once")
+
 COMMON_TRUSTED = [
     "Coq 8.16.1 kernel (coqc); vm_compute for finite sweeps and case evaluation; no native_compute",
     "axioms: none (every property theorem is 'Closed under the global context')",
@@ -73,6 +79,20 @@ def r_c14(toks):
     return f"{'run_pes' if toks[0] == 'PES' else 'run_ppc'} false {hex_to_coq(toks[1])}"
 
 PROPS = {
+    "C03": dict(
+        props_files=["Props/C03.v"],
+        suites=["C03"],
+        render=r_stream,
+        judge=judge_sec,
+        rule="both syntaxes x every section_length 0..=1021 plus over-limit lengths x first-chunk size in {header, header+1, |S|-1, "
+             "|S|, room, random} x pointer_field in {0, 1, random, exactly the pending tail, one more, maximal} x continuation sizes in "
+             "{184, 1, random, exact fit, one short + 1, last piece as the pointer-delimited head of the next start packet} x prior "
+             "state of the PID in {idle, mid-section, abandoned (rejected start), just completed}; the full cross product for 18 boundary "
+             "lengths; adaptation-field stuffing and payload-less packets in between; distinct = distinct case lines",
+        trusted=["13818-1 2.4.4 pointer_field / section syntax as used by the generator (harness/src/suites/c03.rs)",
+                 "bin/trace.py sec_judge: predicate evaluated on the implementation's deliveries (classifies disagreements only)"],
+        assumptions=["at most one section starts per transport packet and that packet carries at least the section's fixed header (8 / 3 bytes), as the property states"],
+    ),
     "C08": dict(
         props_files=["Props/C08.v"],
         suites=["C08"],
